@@ -366,12 +366,12 @@ example : topElement (.node .document [.node (.comment []) []]) [] = .ok [] := b
   The theorems above take indextree's iterators "by contract" (`children`, `ancestors`, … = the
   obvious lists).  For a well-formed arena (`Arena.Rep a g`, see `Props/C04`) the pointer walks of
   `traverse.rs` are proved to yield exactly those lists, within their limit, without panic.
-  `traverse`, `reverse_traverse`, `descendants`, `preceding_siblings` are modelled and compared with
+  `traverse`, `reverse_traverse`, `descendants` are modelled and compared with
   the crate on every run (suite `arena`), not proved.
   ===================================================================================== -/
 
 /-- `children`, `reverse_children` (also what xot's own `reverse_children` walks), `ancestors`
-    (the node first, the root last), `following_siblings` (the node first) of a live node are the
+    (the node first, the root last), `following_siblings` / `preceding_siblings` (the node first) of a live node are the
     list-level children / reversed children / parent chain / rest of the sibling list, as current
     ids; `count` (resp. any bound on the length) suffices as limit; every id yielded is live. -/
 theorem C07_arena_iterators (a : Arena) (g : Arena.Shape) (r : Arena.Rep a g) (p : Nat) (hp : Arena.Live a p)
@@ -383,9 +383,11 @@ theorem C07_arena_iterators (a : Arena) (g : Arena.Shape) (r : Arena.Rep a g) (p
     (∀ q L R, g.par p = some q → g.kids q = L ++ p :: R →
       Arena.followingSiblings a (a.idAt p) limit = .done a ((p :: R).map a.idAt)) ∧
     (g.par p = none → 1 ≤ limit → Arena.followingSiblings a (a.idAt p) limit = .done a [a.idAt p]) ∧
+    (∀ q L R, g.par p = some q → g.kids q = L ++ p :: R →
+      Arena.precedingSiblings a (a.idAt p) limit = .done a ((p :: L.reverse).map a.idAt)) ∧
     (∀ c, c ∈ g.kids p → Arena.LiveId a (a.idAt c)) := by
   have hk : (g.kids p).length ≤ limit := Nat.le_trans (r.kids_length_le p) hlim
-  refine ⟨r.children_eq p hp limit hk, r.reverseChildren_eq p hp limit hk, ?_, ?_, ?_, ?_⟩
+  refine ⟨r.children_eq p hp limit hk, r.reverseChildren_eq p hp limit hk, ?_, ?_, ?_, ?_, ?_⟩
   · obtain ⟨l, hl, hlen⟩ := r.upChain p hp
     exact ⟨l, hl, r.ancestors_chain p l hl hp limit (Nat.le_trans hlen hlim), fun q => hl.mem_iff q⟩
   · intro q L R hq hkq
@@ -397,6 +399,13 @@ theorem C07_arena_iterators (a : Arena) (g : Arena.Shape) (r : Arena.Rep a g) (p
     omega
   · intro hq h1
     exact r.followingSiblings_root p hp hq limit h1
+  · intro q L R hq hkq
+    refine r.precedingSiblings_eq p q L R hp hq hkq limit ?_
+    have h1 := r.kids_length_le q
+    rw [hkq] at h1
+    simp at h1 ⊢
+    have : a.count = a.nodes.length := rfl
+    omega
   · intro c hc
     exact Arena.LiveId.idAt (r.kidsLive p c hc).2.1
 
